@@ -13,6 +13,7 @@
 # limitations under the License.
 
 from .list import ConfigList
+from .node import ConfigNode
 from ..namespace import namespace, staticproperty
 
 from collections.abc import Sequence
@@ -49,11 +50,24 @@ class AppendNode(ConfigList):
         if into is None:
             return ConfigList(self)
 
-        node = into.ayns.remove_node(path)
+        node = AppendNode._take_out(into, path)
         if node is None:
             raise KeyError(f'Node {path!r} does not exist in the previous context (possibly deleted?)')
         node.extend(self)
         return node
+
+    @staticmethod
+    def _take_out(into, path):
+        ''' Removes the node under ``path`` from ``into`` and returns it (``None`` if there is none). An element of a list leaves
+            a value-less entry behind instead: the other elements keep their indices, which the stage that does the appending
+            still uses to address them, and the merge puts the grown list back in its place.
+        '''
+        nodes = into.ayns.get_node(path, intermediate=True, names=True, incomplete=None)
+        if nodes is not None and len(nodes) >= 2 and isinstance(nodes[-2][0], list):
+            node, name, _ = nodes[-1]
+            nodes[-2][0].ayns.set_child(name, ConfigNode(None, priority=node.ayns.priority))
+            return node
+        return into.ayns.remove_node(path)
 
     @namespace('ayns')
     @staticproperty
